@@ -33,6 +33,9 @@ pub struct OpRec {
     pub thread: u64,
     pub call: u64,
     pub ret: u64,
+    /// harness clock (ns) read before the call / after the reply (reads) or after the acknowledgement was observed (writes); 0 = not recorded
+    pub clk_call: u64,
+    pub clk_done: u64,
     pub outcome: Outcome,
 }
 
@@ -69,37 +72,45 @@ pub struct Client {
     pub log: Vec<OpRec>,
     pub pending: Vec<Pending>,
     pub counter: u64,
+    pub clock: Option<rt::VClock>,
 }
 
 impl Client {
-    pub fn new(id: u64) -> Client { Client { id, log: Vec::new(), pending: Vec::new(), counter: 0 } }
+    pub fn new(id: u64) -> Client { Client { id, log: Vec::new(), pending: Vec::new(), counter: 0, clock: None } }
+
+    pub fn with_clock(id: u64, clock: rt::VClock) -> Client { Client { id, log: Vec::new(), pending: Vec::new(), counter: 0, clock: Some(clock) } }
+
+    fn clk(&self) -> u64 { self.clock.as_ref().map(|c| c.ns()).unwrap_or(0) }
 
     pub fn token(&mut self, key: u64) -> u64 { self.counter += 1; token(key, self.id, self.counter) }
 
     pub fn read(&mut self, cache: &Cache, key: u64, variant: usize) -> Option<u64> {
+        let clk_call = self.clk();
         let call = rt::stamp();
         let got = read(cache, variant, key);
         let ret = rt::stamp();
-        self.log.push(OpRec { thread: self.id, call, ret, outcome: Outcome::Read { key, variant, got } });
+        let clk_done = self.clk();
+        self.log.push(OpRec { thread: self.id, call, ret, clk_call, clk_done, outcome: Outcome::Read { key, variant, got } });
         got
     }
 
     /// Issues a write; the acknowledgement is kept pending until `settle` / `settle_all`.
     pub fn write(&mut self, cache: &Cache, op: WriteOp) -> usize {
+        let clk_call = self.clk();
         let call = rt::stamp();
         let issued = issue(cache, &op);
         let ret = rt::stamp();
         let index = self.log.len();
         match issued {
             Issued::Ack(ack, uid) => {
-                self.log.push(OpRec { thread: self.id, call, ret, outcome: Outcome::Write { op, uid, error: None, panicked: None, status: None, acked_at: None } });
+                self.log.push(OpRec { thread: self.id, call, ret, clk_call, clk_done: 0, outcome: Outcome::Write { op, uid, error: None, panicked: None, status: None, acked_at: None } });
                 self.pending.push(Pending { index, ack, uid });
             }
             Issued::SendError(error) => {
-                self.log.push(OpRec { thread: self.id, call, ret, outcome: Outcome::Write { op, uid: 0, error: Some(error), panicked: None, status: None, acked_at: None } });
+                self.log.push(OpRec { thread: self.id, call, ret, clk_call, clk_done: 0, outcome: Outcome::Write { op, uid: 0, error: Some(error), panicked: None, status: None, acked_at: None } });
             }
             Issued::Panicked(message) => {
-                self.log.push(OpRec { thread: self.id, call, ret, outcome: Outcome::Write { op, uid: 0, error: None, panicked: Some(message), status: None, acked_at: None } });
+                self.log.push(OpRec { thread: self.id, call, ret, clk_call, clk_done: 0, outcome: Outcome::Write { op, uid: 0, error: None, panicked: Some(message), status: None, acked_at: None } });
             }
         }
         index
@@ -112,10 +123,12 @@ impl Client {
             let waited = rt::await_ack(p.ack.handle(), p.uid, marks);
             let at = rt::stamp();
             if p.uid != 0 { recorder().forget_acked(p.uid); }
+            let clk_done = self.clk();
             if let Outcome::Write { status, acked_at, .. } = &mut self.log[p.index].outcome {
                 *status = Some(waited);
                 *acked_at = Some(at);
             }
+            self.log[p.index].clk_done = clk_done;
         }
     }
 }
@@ -195,6 +208,62 @@ pub fn check_reads(logs: &[OpRec], counts: &mut Counts, findings: &mut Vec<Findi
                             witness: witness(&[source.rec, other.rec, rec]), inconclusive: false });
                         break;
                     }
+                }
+            }
+        }
+    }
+}
+
+/// Expiry under concurrency (C09): a value whose write carried a time-to-live is never returned by a read that began
+/// after the latest instant that write can have expired (harness clock when its acknowledgement was observed + ttl).
+pub fn check_expiry(logs: &[OpRec], counts: &mut Counts, findings: &mut Vec<Finding>, witness: &dyn Fn(&[&OpRec]) -> J) {
+    let mut by_token: HashMap<u64, &OpRec> = HashMap::new();
+    for rec in logs { if let Outcome::Write { op, .. } = &rec.outcome { if let Some(value) = op.value() { by_token.insert(value, rec); } } }
+    for rec in logs {
+        let (key, variant, value) = match &rec.outcome { Outcome::Read { key, variant, got: Some(value) } => (*key, *variant, *value), _ => continue };
+        let source = match by_token.get(&value) { Some(w) => *w, None => continue };
+        if let Outcome::Write { op, .. } = &source.outcome {
+            let ttl = match op { WriteOp::Upsert { remove_ttl: true, .. } => None, other => other.ttl() };
+            if let (Some(ttl), true, true) = (ttl, source.clk_done != 0, rec.clk_call != 0) {
+                counts.inc("reads_of_values_with_a_known_deadline");
+                let latest_expiry = source.clk_done as u128 + ttl.as_nanos();
+                if (rec.clk_call as u128) > latest_expiry {
+                    findings.push(Finding { props: vec!["C09", "C02"], signature: format!("C09/expired-value-served/concurrent/{}", READ_VARIANTS[variant % 7]),
+                        detail: format!("{} of key {} began at clock {} and returned {:#x}, written with a time-to-live of {} ns by a call acknowledged at clock {} (it expired at {} at the latest)",
+                            READ_VARIANTS[variant % 7], key, rec.clk_call, value, ttl.as_nanos(), source.clk_done, latest_expiry), witness: witness(&[source, rec]), inconclusive: false });
+                } else { counts.inc("reads_before_the_latest_possible_deadline"); }
+            }
+        }
+    }
+}
+
+/// No spurious loss under concurrency (C03): without memory pressure, if the last write of a key began after every other
+/// write of that key had been acknowledged, the final state is decided by it alone.
+pub fn check_final_values(sut: &Sut, logs: &[OpRec], counts: &mut Counts, findings: &mut Vec<Finding>, witness: &dyn Fn(&[&OpRec]) -> J) {
+    let mut by_key: BTreeMap<u64, Vec<&OpRec>> = BTreeMap::new();
+    for rec in logs { if let Outcome::Write { op, .. } = &rec.outcome { by_key.entry(op.key()).or_default().push(rec); } }
+    for (key, writes) in by_key {
+        let last = match writes.iter().max_by_key(|w| w.call) { Some(w) => *w, None => continue };
+        let settled = writes.iter().all(|w| std::ptr::eq(*w, last) || matches!(&w.outcome, Outcome::Write { acked_at: Some(at), .. } if *at < last.call));
+        if !settled { counts.inc("keys_whose_last_write_overlapped_another"); continue; }
+        if let Outcome::Write { op, status, .. } = &last.outcome {
+            let accepted = matches!(status, Some(Waited::Ready(CommandStatus::Accepted)));
+            let expected: Option<Option<u64>> = match op {
+                WriteOp::Delete { .. } => Some(None),
+                WriteOp::Put { value, .. } | WriteOp::PutW { value, .. } if accepted => Some(Some(*value)),
+                // upserts are not judged here: applied in place they may hit an entry that is past its time-to-live while the sweeper
+                // is evicting it (the recorded finding about upserts of expired, unswept keys), which the client log cannot tell apart
+                _ => None,
+            };
+            if let Some(expected) = expected {
+                counts.inc("final_values_checked");
+                let got = sut.cache.get(&key);
+                if got != expected {
+                    let what = if expected.is_some() { "accepted-write-lost" } else { "deleted-key-still-readable" };
+                    let props: Vec<&'static str> = if expected.is_some() { vec!["C03", "C08"] } else { vec!["C04"] };
+                    findings.push(Finding { props, signature: format!("C03/{}/concurrent/{}", what, op.shape()),
+                        detail: format!("key {}: the last write ({}, began after every other write of the key was acknowledged, no memory pressure, no time-to-live) leaves {:?} but the key reads {:?}", key, op.shape(), expected, got),
+                        witness: witness(&[last]), inconclusive: false });
                 }
             }
         }
@@ -459,9 +528,10 @@ fn run_mixed(focus: &'static str, seed: u64, index: u64, clean: bool) -> CaseOut
     for t in 0..cfg.threads {
         let cache = sut.cache.clone();
         let cfg = cfg.clone();
+        let clock = sut.clock.clone();
         let mut rng = rt::rng_for(seed, index, 100 + t as u64);
         handles.push(thread::spawn(move || {
-            let mut client = Client::new(t as u64 + 1);
+            let mut client = Client::with_clock(t as u64 + 1, clock);
             for n in 0..cfg.ops {
                 let key = rng.range(1, cfg.keys);
                 if rng.chance(45, 100) {
@@ -508,6 +578,7 @@ fn run_mixed(focus: &'static str, seed: u64, index: u64, clean: bool) -> CaseOut
     counts.add("max_total_seen_permille_of_limit", if cfg.pressure { (hi.load(Ordering::Relaxed).max(0) as u64 * 1000) / cfg.sut.max_weight as u64 } else { 0 });
     check_ack_outcomes(&logs, false, &mut counts, &mut findings, &witness, panic_mark);
     check_reads(&logs, &mut counts, &mut findings, &witness);
+    check_expiry(&logs, &mut counts, &mut findings, &witness);
     // quiescence: every command acknowledged, two sweeps since the clock stopped
     let mut quiescent = true;
     if let Err(waited) = sut.quiesce().and_then(|_| sut.settle_fresh()) {
@@ -517,6 +588,7 @@ fn run_mixed(focus: &'static str, seed: u64, index: u64, clean: bool) -> CaseOut
     if quiescent && sut.background_exits().is_empty() {
         check_quiescent_accounting(&sut, dirty, &mut counts, &mut findings, case.clone());
         check_quiescent_stats(&sut, &logs, &mut counts, &mut findings, &case);
+        if !cfg.pressure { check_final_values(&sut, &logs, &mut counts, &mut findings, &witness); }
         // corollary through the public API: delete everything, then nothing may stay charged
         let mut client = Client::new(99);
         for key in 1..=cfg.keys { client.write(&sut.cache, WriteOp::Delete { key }); }
